@@ -117,7 +117,7 @@ fn weight(ops: &[Op]) -> usize {
 fn retarget_thread(o: &Op) -> Op {
     let mut o = o.clone();
     match &mut o {
-        Op::Create { t, .. } | Op::Migrate { t, .. } | Op::FreshThread { t } | Op::Pollute { t, .. } | Op::Dist { t, .. } | Op::Jacc { t, .. } | Op::WMatch { t, .. } | Op::JCheck { t, .. } | Op::Burst { t, .. } => *t = 0,
+        Op::Create { t, .. } | Op::Migrate { t, .. } | Op::FreshThread { t } | Op::Pollute { t, .. } | Op::Dist { t, .. } | Op::Jacc { t, .. } | Op::WMatch { t, .. } | Op::JCheck { t, .. } | Op::Burst { t, .. } | Op::JBurst { t, .. } => *t = 0,
         // registry ids are per thread: leave registry ops where they are
         _ => {}
     }
